@@ -24,6 +24,7 @@ import (
 	eioparser "github.com/karagenc/socket.io-go/engine.io/parser"
 
 	"verif/harness/gates"
+	"verif/harness/proxy"
 	"verif/harness/rig"
 	"verif/harness/vres"
 	"verif/harness/vtrace"
@@ -130,14 +131,15 @@ func argsFor(c, g, n, k int, big bool) (name string, args []any, natt int) {
 }
 
 type world struct {
-	srv    *rig.Server
-	mgrs   []*sio.Manager
-	cs     []sio.ClientSocket
-	mu     sync.Mutex
-	ss     map[int]sio.ServerSocket // by client label
-	big    bool
-	got    int64
-	errs   int64
+	px   *proxy.Proxy
+	srv  *rig.Server
+	mgrs []*sio.Manager
+	cs   []sio.ClientSocket
+	mu   sync.Mutex
+	ss   map[int]sio.ServerSocket // by client label
+	big  bool
+	got  int64
+	errs int64
 }
 
 func parseTag(tag string) (c, g, n int, ok bool) {
@@ -208,10 +210,17 @@ func equalArg(want, got any) bool {
 	return eq(want, got)
 }
 
-func newWorld(nclients int, transports []string, recovery, big bool) (*world, error) {
+// linkDelay, when set, puts the clients behind a proxy with that one-way latency; slowRT gives every HTTP request of
+// the clients that much set-up time before its body is read
+var linkDelay, slowRT time.Duration
+
+func newWorld(nclients int, transports []string, recovery, big bool, fastPing ...bool) (*world, error) {
 	w := &world{ss: map[int]sio.ServerSocket{}, big: big}
 	cfg := &sio.ServerConfig{}
 	cfg.ServerConnectionStateRecovery.Enabled = recovery
+	if len(fastPing) > 0 && fastPing[0] {
+		cfg.EIO.PingInterval, cfg.EIO.PingTimeout = time.Second, 2*time.Second
+	}
 	var label int64
 	labels := map[string]int{}
 	srv, err := rig.NewServer(cfg, func(io *sio.Server) {
@@ -236,7 +245,23 @@ func newWorld(nclients int, transports []string, recovery, big bool) (*world, er
 	for c := 1; c <= nclients; c++ {
 		mc := &sio.ManagerConfig{NoReconnection: true}
 		mc.EIO.UpgradeDone = func(string) { upgraded <- struct{}{} }
-		m := rig.NewManager(srv.URL(), transports, mc)
+		url := srv.URL()
+		if linkDelay > 0 {
+			if w.px == nil {
+				px, err := proxy.New(strings.TrimPrefix(url, "http://"))
+				if err != nil {
+					w.close()
+					return nil, err
+				}
+				px.Delay(linkDelay)
+				w.px = px
+			}
+			url = w.px.URL()
+		}
+		if slowRT > 0 {
+			mc.EIO.HTTPTransport = &rig.SlowRT{D: slowRT}
+		}
+		m := rig.NewManager(url, transports, mc)
 		m.OnError(func(err error) { atomic.AddInt64(&w.errs, 1) })
 		w.mgrs = append(w.mgrs, m)
 		s := m.Socket("/", nil)
@@ -280,6 +305,9 @@ func (w *world) close() {
 	for _, m := range w.mgrs {
 		m.Close()
 	}
+	if w.px != nil {
+		w.px.Close()
+	}
 	w.srv.Close()
 }
 
@@ -297,12 +325,18 @@ type params struct {
 	Per        int
 	Big        bool
 	Shapes     []int
+	SlowRT     time.Duration // set-up time of every HTTP request of the clients (its body is read only afterwards)
+	Delay      time.Duration // one-way latency of the link (a request then takes long enough to overlap with others)
+	FastPing   bool          // heartbeats every second: they share the transport with the traffic
+	Pace       time.Duration // pause after every emit (stretches the scenario over several heartbeats)
 }
 
 func (e *env) scenario(rng *rand.Rand, p params, cfgName string) {
 	e.scen++
 	id := e.scen
-	w, err := newWorld(p.Clients, p.Transports, p.Recovery, p.Big)
+	linkDelay, slowRT = p.Delay, p.SlowRT
+	w, err := newWorld(p.Clients, p.Transports, p.Recovery, p.Big, p.FastPing)
+	linkDelay, slowRT = 0, 0
 	if err != nil {
 		e.res.Inconclusive("rig", err.Error(), id)
 		return
@@ -336,7 +370,9 @@ func (e *env) scenario(rng *rand.Rand, p params, cfgName string) {
 						} else {
 							w.ss[c].Emit(name, args...)
 						}
-						if r.Intn(4) == 0 {
+						if p.Pace > 0 {
+							time.Sleep(p.Pace)
+						} else if r.Intn(4) == 0 {
 							time.Sleep(time.Duration(r.Intn(400)) * time.Microsecond)
 						}
 					}
@@ -425,6 +461,11 @@ func run(t *testing.T, which string) {
 				}
 				e.scenario(rng, p, "c01")
 			}
+		}
+		// traffic over several heartbeats on a link with latency (the PONG shares the transport with the events and a request
+		// takes long enough to overlap with it; small payloads: the proxy delays every 4 KiB chunk)
+		for _, tr := range [][]string{{"polling"}, {"websocket"}} {
+			e.scenario(rng, params{Transports: tr, Recovery: false, Clients: 1, Emitters: 3, Per: vres.Pick(80, 120), Big: false, Shapes: all, FastPing: true, Pace: 30 * time.Millisecond, SlowRT: 12 * time.Millisecond}, "c01")
 		}
 		if thorough {
 			for i := 0; i < 24; i++ {
